@@ -1,8 +1,11 @@
 /-
-  Model of the write-ahead log of the consensus state (wal.go, replay.go, receiveRoutine):
+  Model of the write-ahead log of the consensus state (wal.go, replay.go, receiveRoutine) and of
+  the marker search of the file group behind it (go-autofile/group.go Search):
   every input (peer or own message, fired timeout) is appended to the log BEFORE it is handled;
-  a height marker starts a new segment; `catchupReplay` folds the handler over the records of the
-  current height, starting from the state rebuilt from the persisted chain state; a crash keeps a
+  a `#HEIGHT: h` marker starts a height's records; the group rotates its head file when it grows
+  too large, so the files of the group hold the markers `marks` (file index, height);
+  `catchupReplay` searches the marker of the current height and folds the handler over the records
+  after it, starting from the state rebuilt from the persisted chain state; a crash keeps a
   prefix of the records plus possibly a fragment of the next one.
 -/
 import AnnVerif.Model.Node
@@ -18,13 +21,69 @@ def applyRec (n : Node) : Rec → Node
   | .msg m peer => handleMsg n m peer
   | .timeout h r s => handleTimeout n h r s
 
+/-! ### `Group.Search("#HEIGHT: ", h)` -/
+
+/-- a `#HEIGHT: h` line: the file of the group it is in, and how many records of that height's
+    log had been written before it (0 for the marker that opens the height) -/
+structure Mark where
+  file : Nat
+  height : Int
+  pos : Nat
+  deriving Repr, DecidableEq
+
+/-- the markers of the group in writing order -/
+abbrev Marks := List Mark
+
+inductive SearchRes where
+  | found (m : Mark) | notFound | eof
+  deriving Repr, DecidableEq
+
+def SearchRes.isFound : SearchRes → Bool
+  | .found _ => true
+  | _ => false
+
+/-- `scanNext` on a reader opened at file `i`: the first marker in file `i` or later -/
+def scanNext (marks : Marks) (i : Nat) : Option Mark := marks.find? (fun p => i ≤ p.file)
+
+/-- `scanUntil`: walk the markers until one is not below `h` -/
+def scanUntil : List Mark → Int → SearchRes
+  | [], _ => .eof
+  | m :: t, h => if m.height < h then scanUntil t h else if m.height = h then .found m else .notFound
+
+/-- the binary search over file indices `[mn, mx]`. `fixed` = an EOF while probing a file (no
+    marker from there to the end of the group) means "look in the earlier files" (repaired);
+    as found the search ends there with EOF. -/
+def searchLoop (fixed : Bool) (marks : Marks) (h : Int) : Nat → Nat → Nat → SearchRes
+  | 0, _, _ => .eof
+  | fuel + 1, mn, mx =>
+    if mn = mx then scanUntil (marks.filter (fun p => mx ≤ p.file)) h
+    else
+      let cur := (mn + mx + 1) / 2
+      match scanNext marks cur with
+      | none => if fixed then searchLoop fixed marks h fuel mn (cur - 1) else .eof
+      | some m =>
+        if m.height < h then searchLoop fixed marks h fuel m.file mx
+        else if m.height = h then scanUntil (marks.filter (fun p => m.file ≤ p.file)) h
+        else searchLoop fixed marks h fuel mn (cur - 1)
+
+/-- `Group.Search` over a group of `nFiles` files (indices `0 .. nFiles-1`, the head last) -/
+def search (fixed : Bool) (marks : Marks) (nFiles : Nat) (h : Int) : SearchRes :=
+  searchLoop fixed marks h (nFiles + 1) 0 (nFiles - 1)
+
+/-! ### the log -/
+
 /-- the node together with what is on disk for the current height -/
 structure Logged where
   keepsProposer : Bool := true   -- repaired: LoadState restores the cached proposer
   tornOk : Bool := true          -- repaired: a record cut short is terminated on the next start
+  rotationOk : Bool := true      -- repaired: the marker search also looks into earlier files
+  startMarkerOk : Bool := true   -- repaired: WAL.OnStart writes `#HEIGHT: 1` only into an empty GROUP
   n : Node
   snap : Node          -- the state a restart rebuilds from the persisted chain state
-  log : List Rec       -- records after the height marker
+  log : List Rec       -- records after the marker that opened the height
+  marks : Marks := [⟨0, 1, 0⟩]   -- `OnStart` of an empty WAL writes `#HEIGHT: 1`
+  nFiles : Nat := 1
+  headEmpty : Bool := false      -- nothing was written since the last rotation
   tornAt : Option Nat := none  -- as found: position of an unterminated fragment; the record
                                -- written next is glued to it and replay stops there for good
 
@@ -36,14 +95,23 @@ def heightStart (n' : Node) : Node :=
                              vals := n'.vals0, queue := [], out := [] }
   { s0 with rounds := [newRoundVotes s0 s0.height 0] }
 
+/-- entering height `h` writes its marker into the head file and starts an empty log -/
+def openHeight (d : Logged) (n' : Node) : Logged :=
+  { d with n := n', snap := heightStart n', log := [], tornAt := none, headEmpty := false,
+           marks := d.marks ++ [⟨d.nFiles - 1, n'.height, 0⟩] }
+
 /-- one iteration of receiveRoutine: log, then handle -/
 def handle (d : Logged) (r : Rec) : Logged :=
   let n' := applyRec d.n r
-  if n'.height > d.n.height then { d with n := n', snap := heightStart n', log := [], tornAt := none }
-  else { d with n := n', log := d.log ++ [r] }
+  if n'.height > d.n.height then openHeight d n'
+  else { d with n := n', log := d.log ++ [r], headEmpty := false }
 
 /-- killed between the WAL write of an input and its handling -/
-def saveOnly (d : Logged) (r : Rec) : Logged := { d with log := d.log ++ [r] }
+def saveOnly (d : Logged) (r : Rec) : Logged := { d with log := d.log ++ [r], headEmpty := false }
+
+/-- the group's ticker moves the head file away and opens a new one (only a head that has grown) -/
+def rotate (d : Logged) : Logged :=
+  if d.headEmpty then d else { d with nFiles := d.nFiles + 1, headEmpty := true }
 
 /-- `catchupReplay`: fold the handler over the records, from the rebuilt state; the signer reloads
     its file, the internal queue is gone, the validator set comes back from the state DB -/
@@ -59,15 +127,33 @@ def diskLog (d : Logged) (torn : Bool) : List Rec := if torn then d.log.dropLast
 def nextTornAt (d : Logged) (torn : Bool) : Option Nat :=
   if torn ∧ !d.tornOk ∧ d.tornAt.isNone ∧ !d.log.isEmpty then some (diskLog d torn).length else d.tornAt
 
-/-- the records `catchupReplay` gets to see -/
-def replayed (d : Logged) (torn : Bool) : List Rec :=
-  match nextTornAt d torn with
-  | some k => (diskLog d torn).take k
-  | none => diskLog d torn
+/-- start-up before the replay. `WAL.OnStart`: an empty HEAD gets `#HEIGHT: 1` (as found; repaired
+    only an empty group). `ConsensusState.OnStart`: if the search does not find the marker of the
+    current height, a new marker for it is written — behind every record already there. -/
+def startMarkers (d : Logged) (torn : Bool) : Marks :=
+  let at_ := (diskLog d torn).length
+  let m1 := if d.headEmpty ∧ !d.startMarkerOk then d.marks ++ [⟨d.nFiles - 1, 1, at_⟩] else d.marks
+  if (search d.rotationOk m1 d.nFiles d.snap.height).isFound then m1
+  else m1 ++ [⟨d.nFiles - 1, d.snap.height, at_⟩]
 
-/-- kill + restart -/
+/-- the records `catchupReplay` gets to see: those behind the marker the search finds (an EOF from
+    the search is taken for "nothing to replay") -/
+def replayed (d : Logged) (torn : Bool) : List Rec :=
+  match search d.rotationOk (startMarkers d torn) d.nFiles d.snap.height with
+  | .found m =>
+    (match nextTornAt d torn with
+     | some k => (diskLog d torn).take k
+     | none => diskLog d torn).drop m.pos
+  | _ => []
+
+/-- kill + restart. A replay that completes the height opens the next one. -/
 def restart (d : Logged) (torn : Bool) : Logged :=
   let n := replay d (replayed d torn)
-  { d with n := emit n (.timeout n.height 0 .newHeight), log := diskLog d torn, tornAt := nextTornAt d torn }
+  let marks := startMarkers d torn
+  let written := marks.length ≠ d.marks.length
+  let d1 : Logged := { d with log := diskLog d torn, tornAt := nextTornAt d torn, marks := marks,
+                              headEmpty := d.headEmpty && !written }
+  let n1 := emit n (.timeout n.height 0 .newHeight)
+  if n.height > d.snap.height then openHeight d1 n1 else { d1 with n := n1 }
 
 end AnnVerif.Wal
